@@ -126,6 +126,12 @@ def max_value(v, ub):
             return None
         m = ub.get(k)
         tm = _type_max(k)
+        if is_sym(k) and k.op == 'strlen' and k.args and isinstance(k.args[0], Ptr) and isinstance(k.args[0].c, list) and \
+                isinstance(k.args[0].k, int) and len(k.args[0].c) >= 16:
+            # the length of the C string held in a fixed-size buffer of this function: at most its capacity - 1 (the buffer is filled by
+            # the bounded writers R14.2 / R14.9 decide; a strlen that runs past the array would itself be the out-of-bounds access)
+            cap = len(k.args[0].c) - k.args[0].k - 1
+            tm = cap if tm is None else min(tm, cap)
         if m is None:
             m = tm
         elif tm is not None:
@@ -267,6 +273,133 @@ def check_path_imports(chk, tu):
                     chk.expect(kind == 'bounded-copy', 'R14.1', inst + ':link-target-bounded',
                                'symlink target is %s; expected a length-checked, terminated copy of the guest string' % kind, site + ':target')
             # the descriptor must carry a path (preopen): closed / pathless descriptors give EBADF (C13 decides the closed state)
+
+
+RESOLVED_FAMILY = ['/', '//', '/a', '/a/', '/preopen/x', '/preopen/d//', '/preopen/a/b.c', '/preopen/./d/', '/x7', '/other/y/']
+RESOLVED_FAMILY_QUICK = ['/', '//', '/a/', '/preopen/x', '/preopen/d//', '/other/y/']
+DIR_OPS = ('rmdir', 'mkdir')
+
+
+def _posix_same_directory_path(a, b):
+    """for operations on a directory (rmdir, mkdir) trailing slashes do not change what a pathname with a non-slash character resolves to
+    (POSIX pathname resolution); nothing else may differ, and a pathname of slashes only is the root - never the empty string"""
+    def norm(t):
+        if t == '':
+            return None
+        r = t.rstrip('/')
+        return r if r else '/'
+    return norm(a) is not None and norm(a) == norm(b)
+
+
+def check_native_path_bytes(chk, tu):
+    """R14.12: the host operation is performed on the resolved path: every path import is evaluated with resolvePath modelled as
+    producing a concrete string (a family with the root, doubled and trailing separators, dots) and the bytes the native call receives
+    as its path argument are compared with it - equal, or for rmdir/mkdir equal up to trailing separators of a path that has another
+    character.  Whatever the import does to the buffer in between (copying, converting separators, trimming) is decided on the result"""
+    eps = W.entry_points(tu)
+    n = 0
+    for imp, (native, ppos, triples) in sorted(PATH_IMPORTS.items()):
+        for gen, f in sorted(eps[imp].items()):
+            params = astdb.fn_params(f)[1:]
+            fd_value = {}
+            for k, (fi, pi, li) in enumerate(triples):
+                fd_value[fi] = DIR_SLOTS[k][0]
+            for ri, rstr in enumerate(RESOLVED_FAMILY if chk.tier == 'thorough' else RESOLVED_FAMILY_QUICK):
+                state = {}
+                given = []
+                captured = []
+
+                def cstring(v):
+                    if isinstance(v, str):
+                        return v
+                    if isinstance(v, Ptr) and isinstance(v.c, list):
+                        out = []
+                        k_ = v.k
+                        while k_ < len(v.c) and isinstance(v.c[k_], int) and v.c[k_] != 0:
+                            out.append(chr(v.c[k_] & 0xFF))
+                            k_ += 1
+                        if k_ < len(v.c) and v.c[k_] == 0:
+                            return ''.join(out)
+                    return None
+
+                def resolve(interp, args, node, rstr=rstr):
+                    d, p_, n_, res = args
+                    interp.event('resolvePath', (pe._hashable(d), pe._hashable(p_), pe._hashable(n_)), node)
+                    if not (isinstance(res, Ptr) and isinstance(res.c, list)):
+                        raise pe.PEError('resolvePath result buffer is %r' % (res,))
+                    # the second resolved path of a two-path import differs from the first
+                    text = rstr if not given else ('/other/second' if rstr != '/other/second' else '/other/2')
+                    given.append(text)
+                    for k_, ch in enumerate(text):
+                        res.c[res.k + k_] = ord(ch)
+                    res.c[res.k + len(text)] = 0
+                    return 1
+
+                def strlen(interp, args, node):
+                    t = cstring(args[0])
+                    if t is None:
+                        return Sym('strlen', (pe._hashable(args[0]),), 'unsigned long')
+                    return len(t)
+
+                def strcpy(interp, args, node):
+                    t = cstring(args[1])
+                    d = args[0]
+                    if t is None or not (isinstance(d, Ptr) and isinstance(d.c, list)):
+                        interp.event('extern:strcpy', (pe._hashable(d), pe._hashable(args[1])), node)
+                        return d
+                    for k_, ch in enumerate(t):
+                        d.c[d.k + k_] = ord(ch)
+                    d.c[d.k + len(t)] = 0
+                    return d
+
+                def hook(interp, name, args, node, res, native=native):
+                    if name == native:
+                        captured.append([cstring(a) for a in args])
+                    return None
+
+                def mk(it_, st):
+                    args = [unk('instance')]
+                    for i, p_ in enumerate(params):
+                        nm = p_.get('name', '')
+                        t = tu.desugar(astdb.qtype(p_))
+                        if i in fd_value:
+                            args.append(fd_value[i])
+                        elif 'lags' in nm or 'ights' in nm:
+                            args.append(0)
+                        else:
+                            args.append(unk('p%d' % i, t))
+                    return args
+                st2 = {}
+                it = W.make_interp(tu, st2, {'resolvePath': resolve, 'strlen': strlen, 'strcpy': strcpy}, max_paths=3000)
+                it.extern_hook = hook
+
+                def setup():
+                    st2.clear()
+                    del given[:]
+                    W.seed_globals(it, tu, st2, two_dir_table(), errno_value=5)
+                    return (f['name'], mk(it, st2), {})
+                try:
+                    it.explore(setup)
+                except pe.PEError as e:
+                    raise AnalysisBroken('%s/%s with the resolved path %r: %s' % (gen, imp, rstr, e))
+                if not captured:
+                    raise AnalysisBroken('%s/%s with the resolved path %r never reaches %s()' % (gen, imp, rstr, native))
+                want = [rstr, '/other/second' if rstr != '/other/second' else '/other/2']
+                bad = None
+                for got in captured:
+                    for j, k in enumerate(ppos):
+                        if k >= len(got) or j >= len(triples):
+                            continue
+                        g = got[k]
+                        same = g == want[j] or (native in DIR_OPS and g is not None and _posix_same_directory_path(g, want[j]))
+                        if not same and bad is None:
+                            bad = (k, g, want[j])
+                n += 1
+                chk.expect(bad is None, 'R14.12', '%s/%s:native-path[%s]' % (gen, imp, rstr),
+                           '%s: the guest path resolves to %r, but %s() is called with %r as path argument %d - the host operation is '
+                           'performed on another object (or on none: the empty path) than the one the sandbox resolved'
+                           % (imp, bad[2] if bad else None, native, bad[1] if bad else None, bad[0] if bad else 0), imp + ':native-path-bytes')
+    return n
 
 
 def check_follow_flag(chk, tu):
@@ -746,6 +879,8 @@ def run(chk):
     # R14.10: the type byte of a directory entry: host mode word -> witx filetype, for every host S_IF* kind (rule shared with C12 R12.3)
     c12.check_filetype_table(chk, tu, rule='R14.10')
     chk.floor('R14.10', 25)
+    check_native_path_bytes(chk, tu)
+    chk.floor('R14.12', 90)
     chk.floor('R14.9', 4)
     chk.floor('R14.7', 8)
     chk.floor('R14.1', 40)
